@@ -925,6 +925,27 @@ namespace hgraph
                                  !runtime.layout.has_input() ||
                                  ready_to_evaluate(view, evaluation_time);
 
+            // Consume the fired scheduler event(s) and re-arm the next one. This
+            // runs after every evaluation, including one whose exception leaves
+            // this function: a wrapper further out (try_except_, a keyed map
+            // with error capture) may still capture that failure and let the run
+            // go on, and a fired event left behind would then be re-armed as a
+            // time in the past in place of the node's next real wake-up.
+            const auto run_scheduler_tail = [&] {
+                if (!has_scheduler) { return; }
+                auto         &graph = *view.graph_value();
+                NodeScheduler sched{*scheduler, &graph, view.node_index(), evaluation_time};
+                if (scheduled_now)
+                {
+                    sched.advance();  // consume the fired event(s) and re-arm the next
+                }
+                else if (sched.is_scheduled())
+                {
+                    // Ran for another reason (an input ticked): just re-arm the timer.
+                    graph.schedule_node(view.node_index(), sched.next_scheduled_time());
+                }
+            };
+
             if (do_eval)
             {
                 if (callbacks(context).evaluate)
@@ -946,24 +967,16 @@ namespace hgraph
                                                                    write_node_error(runtime, view, evaluation_time, error);
                                                                }));
                     }
-                    else { callbacks(context).evaluate(view, evaluation_time); }
+                    else
+                    {
+                        auto tail_on_failure = UnwindCleanupGuard([&] { run_scheduler_tail(); });
+                        callbacks(context).evaluate(view, evaluation_time);
+                        tail_on_failure.release();
+                    }
                 }
             }
 
-            if (has_scheduler)
-            {
-                auto         &graph = *view.graph_value();
-                NodeScheduler sched{*scheduler, &graph, view.node_index(), evaluation_time};
-                if (scheduled_now)
-                {
-                    sched.advance();  // consume the fired event(s) and re-arm the next
-                }
-                else if (sched.is_scheduled())
-                {
-                    // Ran for another reason (an input ticked): just re-arm the timer.
-                    graph.schedule_node(view.node_index(), sched.next_scheduled_time());
-                }
-            }
+            run_scheduler_tail();
             return true;
         }
 
